@@ -39,7 +39,7 @@ ROLES = {
         "seqs": {"x_cores": [("rx", 0), ("N", 0), ("rx", 1)], "z_cores": [("rz", 0), ("N", 0), ("rz", 1)]},
         "ints": {"N": "N", "rx": "rx", "rz": "rz", "rA": "R_A"},
         "scalars": ("nrmsc",), "scalar_seqs": ("normA", "normb", "normx"),
-        "floor": 40,
+        "floor": 28,
     },
     "_division.amen_divide": {
         "objs": {"a": {"cores": [("R_a", 0), ("N", 0), ("R_a", 1)], "R": "R_a", "N": "N"},
@@ -47,7 +47,7 @@ ROLES = {
         "seqs": {"x_cores": [("rx", 0), ("N", 0), ("rx", 1)], "z_cores": [("rz", 0), ("N", 0), ("rz", 1)]},
         "ints": {"N": "N", "rx": "rx", "rz": "rz", "rA": "R_a"},
         "scalars": ("nrmsc",), "scalar_seqs": ("normA", "normb", "normx"),
-        "floor": 36,
+        "floor": 25,
     },
     "_amen._amen_mm_python": {
         "objs": {},
@@ -56,7 +56,7 @@ ROLES = {
         "ints": {"N": "N", "M": "M", "K": "K", "rx": "rx", "rz": "rz"},
         "param_order": ["A_cores", "B_cores", "M", "N", "K"],
         "scalars": ("nrmsc",), "scalar_seqs": ("normA", "normb", "normx"),
-        "floor": 24,
+        "floor": 17,
     },
 }
 
@@ -313,11 +313,20 @@ class _Pass:
                     self.havoc(t)
             return
         typed = isinstance(val, VTensor) or (isinstance(val, VObj) and val.cls != "operand")
-        for t in targets:
+
+        def store(t, val):
+            nonlocal typed
+            vt = isinstance(val, VTensor) or (isinstance(val, VObj) and val.cls != "operand")
             if isinstance(t, ast.Name):
-                env[t.id] = val if typed or isinstance(val, (VInt, VList, VTuple, VScalar, VBool, VFloat)) else VOpaque("untyped:" + t.id)
+                env[t.id] = val if vt or isinstance(val, (VInt, VList, VTuple, VScalar, VBool, VFloat)) else VOpaque("untyped:" + t.id)
             elif isinstance(t, (ast.Tuple, ast.List)):
-                self.havoc(t)
+                if isinstance(val, (VTuple, VList)) and len(val.items) == len(t.elts) and not any(isinstance(x, ast.Starred) for x in t.elts):
+                    # X[k], n = helper(...): every element is stored where it goes
+                    for te, ve in zip(t.elts, val.items):
+                        store(te, ve)
+                        typed = typed or isinstance(ve, VTensor)
+                else:
+                    self.havoc(t)
             elif isinstance(t, ast.Subscript) and isinstance(t.value, ast.Name) and isinstance(val, VTensor):
                 arr = t.value.id
                 try:
@@ -325,17 +334,19 @@ class _Pass:
                 except Exception:
                     idx = None
                 if not isinstance(idx, VInt):
-                    continue
+                    return
                 inv = {v: k for k, v in self.alias.items()}
                 tpl = self.iface_template(arr) if arr in self.ifaces else self.roles["seqs"].get(inv.get(arr, arr))
                 if tpl is None:
-                    continue
+                    return
                 shp = val.block().shape()
                 if len(shp) != len(tpl):
                     self.records.append((where, text, "violation", f"a tensor with {len(shp)} axes is stored into `{arr}`, whose elements have {len(tpl)} axes"))
-                    continue
+                    return
                 for j, ((fm, off), sz) in enumerate(zip(tpl, shp)):
                     self.equations.append((arr, j, _size(fm, self.facts.norm(idx.p + off)), self.facts.norm(sz), where, text))
+        for t in targets:
+            store(t, val)
         if typed or len(sp.obligations) > n0:
             self.typed += 1
             self.records.append((where, text, (n0, len(sp.obligations)), "typed"))
@@ -356,11 +367,45 @@ def _split(sz_repr):
     return (m.group(1), m.group(2)) if m else None
 
 
+def _inline_attr_locals(f: Func) -> Func:
+    """`a_cores = a.cores` (a read-only local bound once to an attribute of a parameter that is never re-bound): read the attribute in place, so
+    that the operands are recognised whether or not the body caches the lookup in a local"""
+    import copy
+    import dataclasses
+    params = set(f.params())
+    stores = {}
+    for n in ast.walk(f.node):
+        if isinstance(n, ast.Name) and isinstance(n.ctx, ast.Store):
+            stores[n.id] = stores.get(n.id, 0) + 1
+    sub = {}
+    for n in ast.walk(f.node):
+        if isinstance(n, ast.Assign) and len(n.targets) == 1 and isinstance(n.targets[0], ast.Name) and stores.get(n.targets[0].id) == 1 \
+                and isinstance(n.value, ast.Attribute) and isinstance(n.value.value, ast.Name) and n.value.value.id in params \
+                and n.value.value.id not in stores and n.value.attr in ("cores", "N", "M", "R") and n.targets[0].id not in params:
+            # the alias must not be written through either (X[i] = ..., X.append)
+            nm = n.targets[0].id
+            written = any(isinstance(x, ast.Subscript) and isinstance(x.ctx, ast.Store) and isinstance(x.value, ast.Name) and x.value.id == nm
+                          for x in ast.walk(f.node))
+            if not written and n.value.attr == "cores":
+                sub[nm] = n.value
+    if not sub:
+        return f
+
+    class R(ast.NodeTransformer):
+        def visit_Name(s, n):
+            if isinstance(n.ctx, ast.Load) and n.id in sub:
+                return ast.copy_location(copy.deepcopy(sub[n.id]), n)
+            return n
+    node = R().visit(copy.deepcopy(f.node))
+    ast.fix_missing_locations(node)
+    return dataclasses.replace(f, node=node)
+
+
 def type_body(model: Model, short: str) -> list[Ob]:
     roles = ROLES[short]
     if not model.has_func(short):
         return [Ob("IFACE-TYPE", f"{short}:IFACE-TYPE:anchor", ERROR, "", short, f"{short} vanished")]
-    f = model.func(short)
+    f = _inline_attr_locals(model.func(short))
     obs = []
     ifaces = _iface_arrays(f)
     if len(ifaces) < 4:
